@@ -111,9 +111,9 @@ func concProgress(root string, seed int64, dur time.Duration, async bool) int {
 	ex, _ := setupConc(root, async, true, 10, seed)
 	db := ex.db
 	stop := int32(0)
-	const nG = 9
+	const nG = 11
 	var counters [nG]int64
-	names := [nG]string{"All", "AssignAll", "SearchUnindexed+Collect", "Search+And+Or+Collect", "Count+Get+Exist", "InsertOrUpdate", "Delete", "InsertOrUpdateMany", "Search.Delete+Iterator"}
+	names := [nG]string{"All", "AssignAll", "SearchUnindexed+Collect", "Search+And+Or+Collect", "Count+Get+Exist", "InsertOrUpdate", "Delete", "InsertOrUpdateMany", "Search.Delete+Iterator", "pattern searches (indexed)", "pattern searches (scan)"}
 	bad := int32(0)
 	var wg sync.WaitGroup
 	var uuidsMu sync.Mutex
@@ -194,6 +194,15 @@ func concProgress(root string, seed int64, dur time.Duration, async bool) int {
 					}
 					db.InsertOrUpdateMany(objs...)
 					time.Sleep(time.Millisecond)
+				case 9, 10:
+					// pattern searches with ever new expressions, from two goroutines at once
+					// (whatever the package keeps between two compilations is shared by them)
+					f := "S"
+					if g == 10 {
+						f = "Emb.Z"
+					}
+					db.Search(&T{}, f, "~=", fmt.Sprintf("^g%d-%d", g, counters[g])).Collect()
+					db.Search(&T{}, f, "~=", fmt.Sprintf("s%d$", counters[g]%7)).Len()
 				case 8:
 					s := db.Search(&T{}, "A", "=", int64(4))
 					if it, err := s.Iterator(); err == nil {
